@@ -303,7 +303,8 @@ pub fn extract_byte_ranges_read_seek<T: Read + Seek>(
         let data: Vec<u8> = match byte_range {
             ByteRange::FromStart(offset, None) => {
                 bytes.seek(SeekFrom::Start(*offset))?;
-                let length = usize::try_from(len).unwrap();
+                // Read the bytes remaining after `offset`, not `len` bytes
+                let length = usize::try_from(len.saturating_sub(*offset)).unwrap();
                 let mut data = vec![0; length];
                 bytes.read_exact(&mut data)?;
                 data
